@@ -47,7 +47,7 @@ def p_aug(acc, n):
 def p_attr_item(o, d):
     o.v = note(1)
     d["k"] = note(2)
-    d["idx"] = 3
+    d[note("idx")] = note(3)
     o.v += 1
     return o.v, sorted(d, key=str)
 
